@@ -198,6 +198,10 @@ let spec_line line =
   | ["K"; s] -> let b = bytes_of_hex s in Printf.sprintf "%s xs=%s" (hex_of_bytes (nfkd b)) (b01 (xsafe b))
   | _ -> "unsupported-in-spec-mode"
 
+exception Case_timeout
+let case_seconds = try int_of_string (Sys.getenv "MODELRUN_CASE_SECONDS") with _ -> 300
+let () = Sys.set_signal Sys.sigalrm (Sys.Signal_handle (fun _ -> raise Case_timeout))
+
 let () =
   let mode = if Array.length Sys.argv > 1 then Sys.argv.(1) else "model" in
   let f = match mode with "model" -> model_line | "spec" -> spec_line | _ -> failwith "mode: model|spec" in
@@ -206,9 +210,14 @@ let () =
     while true do
       let line = input_line stdin in
       if line <> "" then begin
-        let r = (try f line with Stack_overflow -> "driver-error stack-overflow" | Failure m -> "driver-error " ^ m | Not_found -> "driver-error not-found" | Invalid_argument m -> "driver-error " ^ m) in
-        Buffer.add_string out r; Buffer.add_char out '\n';
-        if Buffer.length out > 60000 then (print_string (Buffer.contents out); Buffer.clear out)
+        (* a per-case time budget and a memory cap (RLIMIT_AS set by the caller) keep one hostile case - e.g. a word
+           count near 2^62 reaching make()/Z.to_nat in a mutated tree - from stalling the whole run *)
+        ignore (Unix.alarm case_seconds);
+        let r = (try f line with Stack_overflow -> "driver-error stack-overflow" | Out_of_memory -> (Gc.compact (); "driver-error out-of-memory")
+                 | Case_timeout -> "driver-error timeout" | Failure m -> "driver-error " ^ m | Not_found -> "driver-error not-found" | Invalid_argument m -> "driver-error " ^ m) in
+        ignore (Unix.alarm 0);
+        (* one result per line, flushed at once: if a case kills the process the caller knows which one *)
+        print_string r; print_char '\n'; flush stdout
       end
     done
   with End_of_file -> ());
